@@ -24,7 +24,10 @@ What each rule trusts (std documentation):
             position, front to back (prelude `deque_enumerate`).
   L_COW     `Cow::Borrowed(X)` .. `C.to_mut()`: `to_mut` "clones the data if it is not already owned";
             a `Cow` that is cloned at its creation instead has the same value at every later read
-            (only the allocation moment differs); `&C` / `C.method()` deref to the same collection.
+            (only the allocation moment differs); `&C` / `C.method()` deref to the same collection;
+            `C.to_mut()` outside receiver position is `&mut C`.
+  N_OKORELSE (normalisation, `norm:`) `let P = X.ok_or_else(|| E)?;` is the `match X { Some(v) => v, None => return
+            Err(E) }` the contracts were written against (`Option::ok_or_else`, the `?` operator; see the rule).
 """
 import re
 
@@ -368,8 +371,10 @@ def L_ENUM(body, ctx):
 
 
 def L_COW(body, ctx):
-    """R14: `let mut C = [std::borrow::]Cow::Borrowed(X);` -> `let mut C = X.clone();` and every
-    `C.to_mut()` -> `C` (within the rest of the enclosing text)."""
+    """R14: `let mut C = [std::borrow::]Cow::Borrowed(X);` -> `let mut C = X.clone();` and, within the rest of the
+    enclosing text, `C.to_mut()` in receiver position (`C.to_mut().m(..)`) -> `C` (the method call takes the
+    `&mut` itself), `C.to_mut()` anywhere else (bound by a `let`, passed as an argument) -> `(&mut C)`:
+    `Cow::to_mut` "Acquires a mutable reference to the owned form of the data", and C now IS the owned form."""
     n = 0
     rx = re.compile(r'let\s+mut\s+(%s)\s*=\s*(?:%s)?Cow\s*::\s*Borrowed\s*\(\s*(%s)\s*\)\s*;' % (IDENT, PATHPFX, PLACE))
     while True:
@@ -379,7 +384,106 @@ def L_COW(body, ctx):
             break
         c, x = m.group(1), _norm(m.group(2))
         rest = body[m.end():]
-        rest = re.sub(r'(?<![A-Za-z0-9_.])%s\s*\.\s*to_mut\s*\(\s*\)' % re.escape(c), c, rest)
+        rest = re.sub(r'(?<![A-Za-z0-9_.])%s\s*\.\s*to_mut\s*\(\s*\)(?=\s*\.(?!\.))' % re.escape(c), c, rest)
+        rest = re.sub(r'(?<![A-Za-z0-9_.])%s\s*\.\s*to_mut\s*\(\s*\)' % re.escape(c), '(&mut %s)' % c, rest)
         body = body[:m.start()] + 'let mut %s = %s.clone();' % (c, x) + rest
+        n += 1
+    return body, n
+
+
+# ------------------------------------------------------------------------------------------------
+# Normalisations (`norm:` in a /*@fn directive): an equivalent spelling of an idiom is rewritten into the
+# spelling the rules / contracts were written against. They may fire zero times.
+
+def _block_split(expr):
+    """`{ S1; ..; Sn; T }` -> ('S1; ..; Sn;', 'T'); any other expression E -> ('', E)."""
+    e = expr.strip()
+    mask = code_mask(e)
+    if not e.startswith('{') or match_close(e, 0, mask) != len(e) - 1:
+        return '', e
+    inner = e[1:-1]
+    imask = code_mask(inner)
+    last, depth = -1, 0
+    for k, c in enumerate(inner):
+        if not imask[k]:
+            continue
+        if c in '([{':
+            depth += 1
+        elif c in ')]}':
+            depth -= 1
+        elif c == ';' and depth == 0:
+            last = k
+    return inner[:last + 1].strip(), inner[last + 1:].strip()
+
+
+def N_OKORELSE(body, ctx):
+    """`let P = X.ok_or_else(|| E)?;` -> `let P = match X { Some(v_) => v_, None => { return Err(E); } };`
+    and with a block closure `|| { S..; T }` -> `None => { S..; return Err(T); }`.
+    std: `Option::ok_or_else` "Transforms the `Option<T>` into a `Result<T, E>`, mapping `Some(v)` to `Ok(v)` and
+    `None` to `Err(err())`" (err is called only for `None`); `?` on a `Result`: "`Ok(v)` evaluates to `v`;
+    `Err(e)` returns `Err(From::from(e))` from the enclosing function", and `From<T> for T` is the identity, so
+    the rewrite is exact when the closure yields the function's own error type (rustc rejects the generated file
+    otherwise: undecided). X, P, S.., T / E are re-emitted unchanged. Occurrences that are not the whole
+    initialiser of a `let` are left as they are (Verus then accepts or rejects them itself)."""
+    n = 0
+    start = 0
+    rx = re.compile(r'\.\s*ok_or_else\s*\(')
+    while True:
+        mask = code_mask(body)
+        m = _first(rx, body, mask, start)
+        if not m:
+            break
+        start = m.end()
+        po = m.end() - 1
+        pc = match_close(body, po, mask)
+        j = _skip_ws(body, pc + 1)
+        if j >= len(body) or body[j] != '?':
+            continue
+        j2 = _skip_ws(body, j + 1)
+        if j2 >= len(body) or body[j2] != ';':
+            continue
+        mc = re.match(r'\s*(?:move\s+)?\|\s*\|', body[po + 1:pc])
+        if not mc:
+            continue
+        expr = body[po + 1 + mc.end():pc].strip()
+        # the enclosing `let`: the last `let` before the call with balanced brackets and no `;` in between
+        let = None
+        for lm in re.finditer(r'(?<![A-Za-z0-9_])let\s', body[:m.start()]):
+            if not mask[lm.start()]:
+                continue
+            depth, ok = 0, True
+            for k in range(lm.end(), m.start()):
+                if not mask[k]:
+                    continue
+                c = body[k]
+                if c in '([{':
+                    depth += 1
+                elif c in ')]}':
+                    depth -= 1
+                    if depth < 0:
+                        ok = False
+                        break
+                elif c == ';' and depth == 0:
+                    ok = False
+                    break
+            if ok and depth == 0:
+                let = lm
+        if let is None:
+            continue
+        eq = find_top(body, r'=(?![=>])', let.end(), mask, m.start())
+        if not eq:
+            continue
+        recv = body[eq.end():m.start()].strip()
+        if not recv:
+            continue
+        if _ident_uses(expr, 'return') or '?' in ''.join(c for c, k in zip(expr, code_mask(expr)) if k):
+            raise LostAnchor('N_OKORELSE: closure body contains return / `?`')
+        stmts, tail = _block_split(expr)
+        if not tail:
+            raise LostAnchor('N_OKORELSE: closure block without a tail expression')
+        new = ('%s match %s { Some(v_) => v_, None => { %s return Err(%s); } };'
+               % (body[let.start():eq.end()], recv, stmts, tail))
+        body = body[:let.start()] + new + body[j2 + 1:]
+        start = let.start() + len(new)
         n += 1
     return body, n
